@@ -32,6 +32,7 @@ namespace pika::detail {
 
         while (value_ < count) { cond_.wait(l, "counting_semaphore::wait"); }
         value_ -= count;
+        PIKA_VERIF_POST("sem.take", this, value_, count);
     }
 
     bool counting_semaphore::wait_until(std::unique_lock<mutex_type>& l,
@@ -49,6 +50,7 @@ namespace pika::detail {
             }
         }
         value_ -= count;
+        PIKA_VERIF_POST("sem.take", this, value_, count);
         return true;
     }
 
@@ -73,6 +75,7 @@ namespace pika::detail {
         if (value_ >= 1)
         {
             --value_;
+            PIKA_VERIF_POST("sem.take", this, value_, 1);
             return true;
         }
         return false;
@@ -86,6 +89,7 @@ namespace pika::detail {
 
         // release no more threads than we get resources
         value_ += count;
+        PIKA_VERIF_POST("sem.add", this, value_, count);
         for (std::int64_t i = 0; value_ >= 0 && i < count; ++i)
         {
             // notify_one() returns false if no more threads are
